@@ -106,6 +106,9 @@ impl<C: Cfg> World<C> {
         let wlen = self.model[w].len();
         let dst_bad = moves
             && ((sink == Sink::MoveInsert && ins_at > wlen) || matches!(self.flav[w].fixed_cap(), Some(c) if wlen >= c));
+        if oob || dst_bad {
+            self.self_panicking_op();
+        }
         let mut newval = if sink == Sink::MutateThenDowncast {
             let p = self.fresh();
             Some((p, C::T::make(p)))
